@@ -1,3 +1,90 @@
-import Kio.Gen.Module
+import Kio.Proofs.GenSpec
+import Kio.Pinned.Defs
+import Kio.Generated.Info
+/-!
+# C16 — the generator translates any well-formed message definition faithfully (partial)
+
+`Gen.module` (Kio/Gen/Module.lean) models the generator at descriptor level;
+`DefSpec.classesAt` (Kio/Gen/DefSpec.lean) is an independent reading of a definition.  The
+theorems hold for *every* definition on which generation succeeds, under explicit side
+conditions (each shown necessary by a kernel-checked counterexample in `Kio.Gen.Counter`):
+* `hnd`: no two nested structures of the module share a name;
+* error-code names are not used for primitive-array fields;
+* non-array fields of a common-struct type are not nullable (the generator never annotates
+  them `| None`).
+FULL STATEMENTS not proved: nullability for primitive arrays (false: known finding C16/H, see
+`primarr_nullable_witness`); coherence (`Schema.wf`) of every generated class and the
+byte-level agreement for an explicit `Supported` predicate — both checked per run by the
+driver (`gencheck`, `genenc`) on the definitions generated in that run, not proved universally.
+-/
 namespace Kio.C16
+open Kio Kio.Gen
+
+/-- version ranges: closed on both ends, `N+` unbounded, `none` empty -/
+theorem version_range (r : VRange) (v : Nat) :
+    r.matches v = true ↔
+      match r with
+      | .empty => False
+      | .mk lo none => lo ≤ v
+      | .mk lo (some hi) => lo ≤ v ∧ v ≤ hi := vrange_matches r v
+
+/-- one class per structure visible in the version, in order, the message itself last -/
+theorem classes (d : MsgDef) (b : List (List Nat)) (v : Nat) (gs : List GClass)
+    (h : module d b v = .ok gs) (hnd : (gs.dropLast.map (·.name)).Nodup) :
+    gs.map (·.name) = (DefSpec.classesAt d b v).map (·.name) := module_classes' d b v gs h hnd
+
+/-- version, flexibility, API key and header version on every class; the last one top-level -/
+theorem class_vars (d : MsgDef) (b : List (List Nat)) (v : Nat) (gs : List GClass)
+    (h : module d b v = .ok gs) :
+    (∀ g ∈ gs, g.version = v ∧ g.flexible = d.flexibleVersions.matches v ∧ g.apiKey = d.apiKey
+        ∧ g.headerVersion = headerVersionOf d v ∧ g.schema.flexible = d.flexibleVersions.matches v) ∧
+    (∃ pre top, gs = pre ++ [top] ∧ top.name = d.name ∧ top.etype = d.kind ∧ ∀ g ∈ pre, g.etype = .nested) :=
+  module_class_vars d b v gs h
+
+/-- **fields**: exactly the definition's fields valid for the version, in order, under the naming
+    convention, with the stated Kafka / struct type and tag -/
+theorem fields (d : MsgDef) (b : List (List Nat)) (v : Nat) (gs : List GClass)
+    (h : module d b v = .ok gs) (hnd : (gs.dropLast.map (·.name)).Nodup)
+    (hec : d.allFields noErrorCodeArray = true) :
+    ∀ (i : Nat) (g : GClass) (e : DefSpec.ExpClass), gs[i]? = some g → (DefSpec.classesAt d b v)[i]? = some e →
+      g.fieldNames = e.fields.map (·.name) ∧
+      g.schema.fields.map fieldTagOf = e.fields.map (·.tag) ∧
+      g.schema.fields.map (fieldKindOf (gs.map (·.name))) = e.fields.map (fun f => some f.kind) :=
+  module_fields' d b v gs h hnd hec
+
+/-- **nullability — partial** (everything except primitive arrays; see the witness below) -/
+theorem nullability_partial (d : MsgDef) (b : List (List Nat)) (v : Nat) (gs : List GClass)
+    (h : module d b v = .ok gs) (hnd : (gs.dropLast.map (·.name)).Nodup)
+    (hcs : d.allFields (noNullableCommonStruct v) = true) :
+    ∀ (i : Nat) (g : GClass) (e : DefSpec.ExpClass), gs[i]? = some g → (DefSpec.classesAt d b v)[i]? = some e →
+      ∀ (j : Nat) (f : Field) (ef : DefSpec.ExpField), g.schema.fields[j]? = some f → e.fields[j]? = some ef →
+        (∀ k, ef.kind ≠ .primArr k) → shapeNullable f.shape = ef.nullable :=
+  module_nullability_partial' d b v gs h hnd hcs
+
+/-- the header version is the one of the Kafka rule (shared with C08) -/
+theorem header_rule (d : MsgDef) (v : Nat) (k : Int) (hk : d.apiKey = some k) :
+    (d.kind = .request → headerVersionOf d v = some (Spec.requestHeaderVersion k v (d.flexibleVersions.matches v))) ∧
+    (d.kind = .response → headerVersionOf d v = some (Spec.responseHeaderVersion k (d.flexibleVersions.matches v))) := by
+  constructor <;> intro hkind <;> simp [headerVersionOf, hkind, hk]
+
+/-- the nullable annotation the generator gives a primitive array ignores `nullableVersions`:
+    a concrete definition where the definition says nullable and the generated field is not
+    (the negation of the full-strength nullability statement; known finding C16/H) -/
+theorem primarr_nullable_witness :
+    let f : FieldDef := .mk (strOf "Ids") (.primArr .int32) (some (.mk 0 none)) (some (.mk 0 none)) none none none false none none
+    let d : MsgDef := ⟨strOf "M", .data, none, .mk 0 (some 0), .empty, [f], []⟩
+    (DefSpec.classesAt d [] 0).map (fun c => c.fields.map (·.nullable)) = [[true]] ∧
+    (match module d [] 0 with
+     | .ok gs => gs.map (fun g => g.schema.fields.map (fun f => shapeNullable f.shape))
+     | .error _ => []) = [[false]] := by decide
+
+set_option maxRecDepth 100000 in
+/-- the side conditions and the agreement hold on all 666 (pinned definition, version) pairs:
+    the statements are not vacuous on the real definitions -/
+theorem pinned_agree :
+    (Pinned.defs.all (fun d => (versionsOf d).all (fun v => specAgrees d Generated.tables.builtins v
+        && (match module d Generated.tables.builtins v with
+            | .ok gs => decide (gs.dropLast.map (·.name)).Nodup
+            | .error _ => false)))) = true := by decide +kernel
+
 end Kio.C16
